@@ -7,7 +7,7 @@ looking at the analyzer: relations in scope (base table | derived table | CTE, e
 import itertools
 
 BASE = {"s1.ta": ["a1", "a2", "id"], "s1.tb": ["b1", "b2", "id"], "s1.tc": ["c1", "id"]}
-KINDS = ("col", "alias", "func", "case", "cast", "arith", "window")
+KINDS = ("col", "alias", "func", "case", "cast", "arith", "window", "case3", "nested", "window2")
 
 
 class Rel:
@@ -26,11 +26,17 @@ class Rel:
             ia = self.inner_alias
             inner = f"select {', '.join((ia + '.' if ia else '') + c for c in self.cols)} from {self.table}" + (f" {ia}" if ia else "")
             return f"({inner}){kw}{self.alias}"
-        if self.kind == "cte":
+        if self.kind == "derived2":
+            inner = f"select {', '.join(self.cols)} from (select {', '.join(self.cols)} from {self.table}) {self.inner_alias or 'i2'}"
+            return f"({inner}){kw}{self.alias}"
+        if self.kind in ("cte", "cte2"):
             return self.alias  # defined in the WITH clause
         raise ValueError(self.kind)
 
     def with_text(self):
+        if self.kind == "cte2":
+            # a CTE defined from another CTE
+            return f"{self.alias}0 as (select {', '.join(self.cols)} from {self.table}), {self.alias} as (select {', '.join(self.cols)} from {self.alias}0)"
         return f"{self.alias} as (select {', '.join(self.cols)} from {self.table})"
 
     def path(self, col):
@@ -41,6 +47,13 @@ class Rel:
 def item_text(kind, refs, n):
     r0 = refs[0]
     r1 = refs[1] if len(refs) > 1 else refs[0]
+    r2 = refs[2] if len(refs) > 2 else refs[0]
+    if kind == "case3":
+        return f"case when {r0} > 0 then {r1} else {r2} end as x{n}", f"x{n}"
+    if kind == "nested":
+        return f"coalesce(upper({r0}), cast({r1} as int), {r2}) as x{n}", f"x{n}"
+    if kind == "window2":
+        return f"row_number() over (partition by {r0} order by {r1}, {r2} desc) as x{n}", f"x{n}"
     if kind == "col":
         return r0, None
     if kind == "alias":
@@ -56,6 +69,9 @@ def item_text(kind, refs, n):
     if kind == "window":
         return f"sum({r0}) over (partition by {r1}) as x{n}", f"x{n}"
     raise ValueError(kind)
+
+
+NREFS = {"col": 1, "alias": 1, "cast": 1, "func": 2, "case": 2, "arith": 2, "window": 2, "case3": 3, "nested": 3, "window2": 3}
 
 
 class Stmt:
@@ -75,7 +91,10 @@ class Stmt:
         return f"select {', '.join(texts)} from {frm}"
 
     def sql(self):
-        ctes = [r for r in self.rels if r.kind == "cte"]
+        ctes = []
+        for r in self.rels:
+            if r.kind in ("cte", "cte2") and r.alias not in [c.alias for c in ctes]:
+                ctes.append(r)
         w = ("with " + ", ".join(r.with_text() for r in ctes) + " ") if ctes else ""
         cols = f" ({', '.join(self.explicit)})" if self.explicit else ""
         return f"insert into {self.target}{cols} {w}{self.select_text()}"
@@ -94,10 +113,16 @@ class Stmt:
         scope is reported unresolved (bare column name, candidates = every relation in scope)"""
         exp = set()
         for (kind, refs, qualified), tname in zip(self.items, self.target_names()):
-            used = refs if kind not in ("col", "alias", "cast") else refs[:1]
+            used = refs[: NREFS[kind]]
             for ri, c in used:
+                # an unqualified reference is disambiguated by a sub-query / CTE in scope that exposes the column (its column
+                # list is known from the statement itself); base tables have no known columns without metadata
+                exposing = [r for r in self.rels if r.kind != "table" and c in r.cols]
                 if qualified or len(self.rels) == 1:
                     exp.add((f"{self.rels[ri].table}.{c}", f"{self.target}.{tname}"))
+                elif exposing:
+                    for r in exposing:
+                        exp.add((f"{r.table}.{c}", f"{self.target}.{tname}"))
                 else:
                     exp.add((c, f"{self.target}.{tname}"))
         return exp
@@ -112,7 +137,7 @@ def union_sql(stmts):
     exp = set()
     for s in stmts:
         for (kind, refs, qualified), tname in zip(s.items, names):
-            used = refs if kind not in ("col", "alias", "cast") else refs[:1]
+            used = refs[: NREFS[kind]]
             for ri, c in used:
                 exp.add((f"{s.rels[ri].table}.{c}", f"{first.target}.{tname}"))
     return sql, exp
@@ -131,12 +156,18 @@ def statements(thorough=False):
         "cte": [Rel("cte", "s1.ta", "c")],
         "join_derived": [Rel("table", "s1.tb", "y"), Rel("derived", "s1.ta", "d")],
         "join3": [Rel("table", "s1.ta", "x"), Rel("table", "s1.tb", "y"), Rel("table", "s1.tc", "z")],
+        "derived2": [Rel("derived2", "s1.ta", "d")],
+        "cte_from_cte": [Rel("cte2", "s1.ta", "c")],
+        "cte_join_table": [Rel("cte", "s1.ta", "c"), Rel("table", "s1.tb", "y")],
+        # a CTE whose name is the bare name of a real table of another schema-qualified relation in the statement
+        "cte_named_like_table": [Rel("cte", "s1.ta", "tb"), Rel("table", "s1.tc", "z")],
+        "alias_case": [Rel("table", "s1.ta", "Xa"), Rel("table", "s1.tb", "yB")],
     }
     for sname, rels in shapes.items():
         for kind in KINDS:
             r0 = 0
             r1 = len(rels) - 1
-            refs = [(r0, rels[r0].cols[0]), (r1, rels[r1].cols[1] if len(rels[r1].cols) > 2 else rels[r1].cols[0])]
+            refs = [(r0, rels[r0].cols[0]), (r1, rels[r1].cols[1] if len(rels[r1].cols) > 2 else rels[r1].cols[0]), (r0, rels[r0].cols[-1])]
             for explicit in (None, ["e1", "e2"]):
                 items = [(kind, refs, True), ("col", [(r1, rels[r1].cols[0])], True)]
                 out.append((f"{sname}/{kind}/{'list' if explicit else 'names'}", Stmt(rels, items, explicit)))
